@@ -19,7 +19,7 @@ RULE = ('graphs over node sets {0}, {0,1}, {0,2} (gap), {0,1,2} (thorough: also 
         'or self-loop requested] and the label of nd\' holds of the next '
         'valuation; dead ends admit nothing; init <=> nd initial (unless '
         'ignored) and its label holds, and never at a value of nd that is no node; the other player\'s action is TRUE '
-        'unless receptive. non-trivial = graph has a dead end or a labelled '
+        'unless receptive; every other graph is converted a second time (the first conversion with other options). non-trivial = graph has a dead end or a labelled '
         'edge; distinct = graph description')
 ASSUMPTIONS = ['dd trusted', 'label formulas are evaluated by the reference '
                'evaluator; assignments are read as equalities (open world)']
@@ -174,6 +174,13 @@ def run_case(case, acc):
         g.initial_nodes = set(case['initial'])
     with warnings.catch_warnings():
         warnings.simplefilter('ignore')
+        if (len(case['edges']) + len(case['nlabels'])) % 2:
+            # every other graph has been converted before (once with the
+            # receptiveness assumptions if the component owns it): the
+            # conversion must not consume the graph
+            lg.graph_to_logic(g, 'nd', case['ignore_initial'],
+                              receptive=(case['owner'] == 'sys'),
+                              self_loops=not case['self_loops'])
         aut = lg.graph_to_logic(
             g, 'nd', case['ignore_initial'], receptive=case['receptive'],
             self_loops=case['self_loops'])
